@@ -158,8 +158,20 @@ impl Spn {
                         );
                         e
                     })?;
-                trace!("plugin_spn: set spn to {:?}", spn_valueset);
-                ent.set_ava_set(&Attribute::Spn, spn_valueset);
+                // Only write (and thereby re-stamp the change id of) the spn when it actually
+                // changes. Re-stamping an unchanged spn on every modify lets a later unrelated
+                // edit on one replica beat a concurrent rename on another replica for the spn
+                // attribute only, leaving name and spn inconsistent after replication.
+                // (compare only values of the spn syntax: an spn of another syntax, e.g. supplied
+                // by a client, is always replaced, as before)
+                let unchanged = ent
+                    .get_ava_set(Attribute::Spn)
+                    .map(|cur| cur.syntax() == spn_valueset.syntax() && cur == &spn_valueset)
+                    .unwrap_or(false);
+                if !unchanged {
+                    trace!("plugin_spn: set spn to {:?}", spn_valueset);
+                    ent.set_ava_set(&Attribute::Spn, spn_valueset);
+                }
             }
         }
         Ok(())
